@@ -734,6 +734,36 @@ func lagRecord(tag byte, seq uint32, size int) []byte {
 // `<tag>:<first>-<last>`, and the number of bytes that are not part of an intact record.
 func (r *relayInst) drain(quiet time.Duration) string {
 	deadline := time.Now().Add(25 * time.Second)
+	// phase 0: every frame written by a writer that is still joined has been taken by its server-side readPump and fanned out
+	// (on a loaded machine nothing may have arrived yet: "nobody received anything lately" must not be mistaken for "done")
+	for time.Now().Before(deadline) {
+		mem := r.members()
+		ok := true
+		for _, w := range r.conns {
+			if m, in := mem[w.name]; in && m.C.VCanWrite() && m.C.VTxCount() < w.nsent {
+				ok = false
+			}
+		}
+		if ok {
+			break
+		}
+		time.Sleep(time.Millisecond)
+	}
+	r.hub.VBarrier()
+	// phase 0b: the queues of the readers that ARE reading have been written out by their writePumps
+	for time.Now().Before(deadline) {
+		mem := r.members()
+		ok := true
+		for _, w := range r.conns {
+			if m, in := mem[w.name]; in && atomic.LoadInt32(&w.paused) == 0 && m.QLen > 0 {
+				ok = false
+			}
+		}
+		if ok {
+			break
+		}
+		time.Sleep(time.Millisecond)
+	}
 	for time.Now().Before(deadline) {
 		last := int64(0)
 		for _, w := range r.conns {
